@@ -1,6 +1,6 @@
 (* C12 -- Feed-forward layers compute their documented formulas; Linen and NNX agree. *)
 From Coq Require Import ZArith QArith.
-From Flaxm Require Import Lib.Harness Model.NdIndex Model.Layers Proofs.Layers Proofs.ConvT Proofs.Conv2 Proofs.NdIndex.
+From Flaxm Require Import Lib.Harness Model.NdIndex Model.Layers Proofs.Layers Proofs.ConvT Proofs.Conv2 Proofs.NdIndex Proofs.DenseG.
 Open Scope Z_scope.
 
 (* Conv: what the code does (jnp.pad with the boundary rule, then a VALID convolution) is the documented direct sum
@@ -157,6 +157,12 @@ Print Assumptions C12_dense_general_axes_order.
 Theorem C12_dense_general_shape : forall xshape axes fshape x k bias,
   length (dense_general xshape axes fshape x k bias) = prod (dense_general_oshape xshape axes fshape).
 Proof. exact dense_general_length. Qed.
+(* ... and over the last axis of a matrix it is Dense: the flat-tensor model and the row model of Dense agree *)
+Theorem C12_dense_general_is_dense : forall n cin nout (xs k : list row) b,
+  (0 < nout)%nat -> length xs = n -> Forall (fun r => length r = cin) xs -> length k = cin -> Forall (fun r => length r = nout) k ->
+  dense_general [n; cin]%nat [1]%nat [nout]%nat (concat xs) (concat k) b = concat (dense k b nout xs).
+Proof. exact dense_general_is_dense. Qed.
+Print Assumptions C12_dense_general_is_dense.
 Example C12_dense_general_example :
   dense_general [2; 3]%nat [1]%nat [2]%nat [1; 2; 3; 4; 5; 6] [1; 0; 0; 1; 1; 1] (Some [10; 20]) = [14; 25; 20; 31] /\
   dense_general [2; 2; 2]%nat [2; 0]%nat [1]%nat [1; 2; 3; 4; 5; 6; 7; 8] [1; 10; 100; 1000] None = [6521; 8743].
